@@ -32,7 +32,6 @@ err_t beltKWPWrap(octet dest[], const octet src[], size_t count,
 		len != 16 && len != 24 && len != 32 ||
 		!memIsValid(src, count) ||
 		!memIsNullOrValid(header, 16) ||
-		header && !memIsDisjoint2(src, count, header, 16) ||
 		!memIsValid(key, len) ||
 		!memIsValid(dest, count + 16))
 		return ERR_BAD_INPUT;
